@@ -82,6 +82,24 @@ def generate(rng, tier):
         nq, nt = rng.randint(2, 5), rng.randint(1, 3)
         s = stream(rng, nq, nt, 3, none_p=0.0, lo=0, hi=120)
         cases += feat_lines(rng, s, [s, s[::-1]])
+    # a contested track whose heaviest claimant has too few votes to qualify (min_votes >= 2): the filter must come
+    # before the award, the track goes to the heaviest QUALIFYING claimant
+    for i in range(nbase // 2):
+        mv = rng.choice([2, 2, 3])
+        s = []
+        for w in range(101, 101 + rng.randint(1, 2)):
+            for _ in range(mv - 1):
+                s.append((1, w, G * rng.randint(0, 10)))                 # under-voted, close (heavy)
+            for q in range(2, 2 + rng.randint(1, 2)):
+                for _ in range(mv + rng.randint(0, 1)):
+                    s.append((q, w, G * rng.randint(60, 200)))           # qualified, far (light)
+        for _ in range(rng.randint(0, 3)):
+            s.append((rng.randint(1, 4), 100 + rng.randint(1, 3), G * rng.randint(0, 256)))
+        rng.shuffle(s)
+        maxd = G * 300
+        for p_ in (s, s[::-1]):
+            cases.append(["vote best %s %d %s" % (f32tok(maxd), mv, toks(p_))])
+            cases.append(["vote topn %d %s %d %s" % (rng.choice([1, 2, 10]), f32tok(maxd), mv, toks(p_))])
     # Hungarian
     nh = {"quick": 400, "thorough": 6000, "search": 3000}.get(tier, 400)
     for i in range(nh):
